@@ -24,7 +24,7 @@ import json, os
 from vlib import *
 
 KINDS = {"r": 0, "s": 1, "p": 2, "c": 3}
-NQUICK, NTHOROUGH = 800, 12000
+NQUICK, NTHOROUGH = 1500, 12000
 CONSTS = {}   # constants printed by the executor (read from the built code)
 
 
